@@ -14,6 +14,7 @@ type Case struct {
 	Rows     [][]script.Val `json:"rows"`
 	Extended bool           `json:"extended,omitempty"`
 	RFmts    []int16        `json:"rfmts,omitempty"`
+	Other    bool           `json:"other,omitempty"` // a second portal with complementary formats is bound in between
 }
 
 const q = "select rows"
@@ -88,7 +89,23 @@ func Run(c Case) core.Result {
 	h.Cfg.Table.Q = map[string]script.Outcome{q: {Stmts: []script.Stmt{st}}}
 	h.Cfg.SetLimit, h.Cfg.Limit = true, 1<<16
 	if c.Extended {
-		h.Msgs = []script.CMsg{{K: "P", Query: q}, {K: "B", RFmts: c.RFmts}, {K: "D", Kind: 'P'}, {K: "E"}, {K: "S"}}
+		h.Msgs = []script.CMsg{{K: "P", Query: q}, {K: "B", RFmts: c.RFmts}}
+		if c.Other {
+			// another portal on the same statement with the complementary formats, bound in between
+			var o []int16
+			for _, f := range c.RFmts {
+				o = append(o, 1-f)
+			}
+			if len(o) == 0 {
+				o = []int16{1}
+			}
+			h.Msgs = append(h.Msgs, script.CMsg{K: "B", Portal: "other", RFmts: o})
+		}
+		h.Msgs = append(h.Msgs, script.CMsg{K: "D", Kind: 'P'}, script.CMsg{K: "E"})
+		if c.Other {
+			h.Msgs = append(h.Msgs, script.CMsg{K: "D", Kind: 'P', Portal: "other"}, script.CMsg{K: "E", Portal: "other"})
+		}
+		h.Msgs = append(h.Msgs, script.CMsg{K: "S"})
 	} else {
 		h.Msgs = []script.CMsg{{K: "Q", Query: q}}
 	}
